@@ -89,6 +89,12 @@ def loadOp : Handler := fun args =>
   | .ok v => outJson (CV.Decode.load genEnv (getStr args "type") v)
   | .error e => Json.mkObj [("bad", e)]
 
-def handlers : List (String × Handler) := [("c09.marshal", marshalOp), ("c09.decode", decodeOp), ("c09.struct", structOp), ("c09.load", loadOp)]
+/-- `processExtensions` then generic decoding (trees that carry `x-` attributes) -/
+def loadExtOp : Handler := fun args =>
+  match Val.ofJson (getObj args "v") with
+  | .ok v => outJson (CV.Decode.loadExt genEnv (getStr args "type") v)
+  | .error e => Json.mkObj [("bad", e)]
+
+def handlers : List (String × Handler) := [("c09.marshal", marshalOp), ("c09.decode", decodeOp), ("c09.struct", structOp), ("c09.load", loadOp), ("c09.loadext", loadExtOp)]
 
 end CV.Ops.C09
